@@ -14,7 +14,13 @@ SPECS = {            # name: (d, class sizes)
     'S3u': (3, (5, 7, 4)),
     'S5': (5, (8, 8, 8)),
     'S8': (8, (16, 16)),
+    # thorough tier only
+    'S4u': (4, (6, 9, 5)),
+    'S6': (6, (12, 12, 8)),
 }
+
+
+_SEED_INDEX = {'S2': 0, 'S2u': 1, 'S3': 2, 'S3u': 3, 'S5': 4, 'S8': 5, 'S4u': 6, 'S6': 7}
 
 
 class DS(object):
@@ -102,7 +108,7 @@ def dataset(name, seed=0):
         d, sizes, s = 3, (6, 6, 6), 900 + seed
     else:
         d, sizes = SPECS[name]
-        s = 100 + sorted(SPECS).index(name)
+        s = 100 + _SEED_INDEX[name]
     X, y = _points(d, sizes, s)
     ds = DS()
     ds.name, ds.d, ds.sizes, ds.X, ds.y = name, d, sizes, X, y
@@ -118,10 +124,13 @@ def dataset(name, seed=0):
     return ds
 
 
+THOROUGH = ['S2', 'S2u', 'S3', 'S3u', 'S4u', 'S5', 'S6', 'S8', 'R']
+
+
 def names(tier, seed=None, small=False):
     if small:
-        return ['S3u', 'S5'] if tier == 'quick' else ['S2', 'S2u', 'S3', 'S3u', 'S5', 'S8', 'R']
-    return ['S2', 'S3u', 'S5', 'R'] if tier == 'quick' else ['S2', 'S2u', 'S3', 'S3u', 'S5', 'S8', 'R']
+        return ['S3u', 'S5'] if tier == 'quick' else list(THOROUGH)
+    return ['S2', 'S3u', 'S5', 'R'] if tier == 'quick' else list(THOROUGH)
 
 
 def spd(d, k=0):
@@ -155,4 +164,19 @@ def scaled(ds, c):
     s.X = ds.X * c
     s.yreg = ds.yreg.copy()
     s.pairs, s.quads, s.quads_sat, s.trip = s.X[ds.pairs_idx], s.X[ds.quads_idx], s.X[ds.quads_sat_idx], s.X[ds.trip_idx]
+    return s
+
+
+def relabelled(ds):
+    """The same points and tuples with OTHER labels (class labels rolled, targets reversed, pair labels negated on every third
+    pair, chunk ids rolled): a second training set that differs from `ds` only in its label arguments."""
+    s = DS()
+    s.__dict__.update(ds.__dict__)
+    s.name = ds.name + '~relabelled'
+    s.y = np.roll(ds.y, 3)
+    s.yreg = ds.yreg[::-1].copy()
+    yp = ds.ypairs.copy()
+    yp[::3] *= -1
+    s.ypairs = yp
+    s.chunks = np.roll(ds.chunks, 2)
     return s
